@@ -66,6 +66,14 @@ CLAIMED = {
    technique="contract-based deductive verification: VCs from the jaxpr of the real wrapper classes (built by the real "
              "constructors) over uninterpreted inner functions, ring normalisation + z3",
    design_ref="DESIGN.md §5 C10", note=B_NOTE + " Architectures enumerated (widths/outputs <= 3, d <= 3)."),
+ "C11": dict(
+   text="For a real SPINN around uninterpreted per-dimension embeddings, entry (i1..id) of every forward-mode result "
+        "(four operators, SPINN branches of Burgers / Fisher-KPP / OU-FPE / mass conservation / Navier-Stokes, four "
+        "boundary functions, initial-condition, normalisation and dynamic_loss_apply) equals the pointwise C01/C02/C04/C05 "
+        "postcondition instantiated with the pointwise twin F = sum_r prod_j f_j at (x_i1..x_id), time axis first.",
+   technique="contract-based deductive verification: VCs from the jaxpr of the real forward-mode code over uninterpreted "
+             "embeddings; pointwise side obtained by symbolic differentiation of the twin; ring normalisation + z3",
+   design_ref="DESIGN.md §5 C11", note=B_NOTE + " d <= 3, B <= 2, r <= 2, outputs <= 2 enumerated."),
 }
 PENDING_REASON = "check not built yet (framework under construction); will be claimed once its contracts verify"
 NA = {}
